@@ -30,6 +30,9 @@ var addrMgrMirrors = []mirrorSpec{
 
 func runC08(c *Ctx) {
 	p := c.P
+	// what a restarted manager finds: every reader of a bucket keyed by a hash looks under the hash its writer used
+	checkHashedBucketKeys(c, "C08-R4")
+	checkCacheMissLoadsSameAddress(c, "C08-R4")
 	// ---------- R1 ----------
 	n := 0
 	for _, fn := range p.FuncsIn("waddrmgr") {
@@ -367,7 +370,7 @@ func checkRowRewrites(c *Ctx, rule string) {
 				// acceptable: a field load of a row (same-named or the encrypted-key aliases), a parameter/derived value; not a nil/zero constant
 				ok := true
 				detail := ""
-				if outermost(fn).Name() == "deletePrivateKeys" && strings.Contains(pn, "Priv") {
+				if p.inRegion(p.Func("waddrmgr", "", "deletePrivateKeys"), fn) && strings.Contains(pn, "Priv") {
 					// the one function whose purpose is to strip private ciphertexts (C04-R5)
 					c.Check(rule, "row-rewrite-preserves:"+fn.Name()+"->"+name+"."+pn, cc.Pos(), isNilConst(arg), "deletePrivateKeys must rewrite the row with a nil private key")
 					continue
@@ -442,3 +445,58 @@ func sameFieldRole(field, param string) bool {
 }
 
 var _ = token.ADD
+
+// checkCacheMissLoadsSameAddress: a lookup that first asks the address cache and, on a miss, loads the row from the
+// database answers the same with a warm and with a cold cache only if both steps are keyed by the same address value
+// (after any normalisation such as pay-to-pubkey -> pay-to-pubkey-hash). If the database step receives the caller's
+// original address, a restarted manager (cold cache) does not find an address the running one does.
+func checkCacheMissLoadsSameAddress(c *Ctx, rule string) {
+	p := c.P
+	n := 0
+	for _, fn := range p.FuncsIn("waddrmgr") {
+		if fn.Parent() != nil || fn.Signature.Recv() == nil || recvName(fn) != "ScopedKeyManager" {
+			continue
+		}
+		loads := callsNamed(fn, "loadAndCacheAddress")
+		if len(loads) == 0 {
+			continue
+		}
+		// the address whose script address keys the cache lookup in this function
+		var keyed []ssa.Value
+		for _, b := range fn.Blocks {
+			for _, ins := range b.Instrs {
+				lk, ok := ins.(*ssa.Lookup)
+				if !ok {
+					continue
+				}
+				if _, f, _, okf := fieldOf(stripConv(lk.X)); !okf || f != "addrs" {
+					continue
+				}
+				for _, o := range (&Slicer{P: p}).Origins(lk.Index) {
+					if call, ok := o.(*ssa.Call); ok && call.Call.IsInvoke() && call.Call.Method.Name() == "ScriptAddress" {
+						keyed = append(keyed, stripConv(call.Call.Value))
+					}
+				}
+			}
+		}
+		if len(keyed) == 0 {
+			continue
+		}
+		for _, ld := range loads {
+			a := p.argNamed(ld, "address", 2)
+			if a == nil {
+				continue
+			}
+			n++
+			same := false
+			for _, k := range keyed {
+				if stripConv(a) == k {
+					same = true
+				}
+			}
+			c.Check(rule, "cache-miss-loads-same-address:"+fn.Name(), ld.Pos(), same,
+				fnName(fn)+" looks the address cache up under one address value and, on a miss, loads the database row for another: a normalisation applied to the cache key only (pay-to-pubkey -> pubkey hash) makes a restarted manager answer 'address not found' for an address the running manager knows")
+		}
+	}
+	c.Floor(rule, "cache-then-database address lookups", n, 1)
+}
